@@ -764,6 +764,11 @@ func second(l string) {
 	case strings.HasPrefix(l, "f2 open "):
 		d, err := sdb.OpenFile(l[8:])
 		if err != nil {
+			// what sqlittle.Open does with a database it cannot use: the handle OpenFile made is closed, not left to the
+			// garbage collector (whose finalizer would close the descriptor - and with it every lock of the process - at some later time)
+			if d != nil {
+				d.Close()
+			}
 			fmt.Fprintln(out, "f2 open err")
 			return
 		}
@@ -971,6 +976,9 @@ func main() {
 			guard("open err ", func() {
 				d, err := sdb.OpenFile(line[6:])
 				if err != nil {
+					if d != nil {
+						d.Close()
+					}
 					fmt.Fprintf(out, "open err %s\n", h.ErrKind(err))
 					return
 				}
